@@ -538,12 +538,33 @@ def fam_chain(n, classes, src_kinds, out_kinds, idpats=None):
     return dims, build
 
 
+def fam_fanin(tier):
+    """Three filters: filter 0 is referenced by id from filters 1 and 2 (different suffixes, first reference with or without one),
+    user ids that coincide with the automatic ids (`Util1`, `Util2`, ...) of other filters."""
+
+    ids1 = [None, 'b', 'Util1', 'Util2']
+    ids2 = [None, 'c', 'Util2', 'Util3', 'Webvis']
+    dims = [['VideoIn', 'Util'], ['Util'], ['Util', 'Webvis'], [None, 'a'], ids1, ids2,
+            [ref(0), ref(0, ';main>cam'), ref(0, '?'), ABSENT], [ref(0), ref(0, ';t'), ref(0, '??!opt'), ref(1), ABSENT],
+            [ABSENT, val('tcp://*:5551')], [False, True]]
+
+    def build(ch):
+        c0, c1, c2, i0, i1, i2, s1, s2, o0, ipc = ch
+
+        return {'ipc': ipc, 'style': 'space', 'filters': [{'cls': c0, 'id': i0, 'src': ABSENT, 'out': o0},
+                                                           {'cls': c1, 'id': i1, 'src': s1, 'out': ABSENT},
+                                                           {'cls': c2, 'id': i2, 'src': s2, 'out': ABSENT}]}
+
+    return dims, build
+
+
 def families(tier):
     quick = tier == 'quick'
     fams  = {
         'single': fam_single(tier),
         'pairs':  fam_pairs(tier),
         'ports':  fam_ports(tier),
+        'fanin':  fam_fanin(tier),
     }
 
     if quick:
